@@ -4,7 +4,7 @@ C07 — APDU fixed headers carry every field of all eight PDU types faithfully.
 Correspondence streams (model = lean/Drv/C07.lean over Model.Apci):
   hdr-<t>     : the FULL cross product of flag bits x code points per PDU type with
                 octet fields in {0,1,127,128,255} (quick thins only the four octet fields of
-                segmented confirmed requests to a strength-3 orthogonal array; thorough runs
+                segmented confirmed requests to a strength-2 orthogonal array; thorough runs
                 all 332 800); per header four operations:
                   enc   raw APCI.encode                        (header octets)
                   aenc  typed class (built through its constructor parameters) -> APDU -> PDU
@@ -29,6 +29,14 @@ Correspondence streams (model = lean/Drv/C07.lean over Model.Apci):
                 decoded objects' pduData the way the segmentation code does (put_data of another
                 object's pduData, put, put_short, +=, extend); decode further frames; re-encode.
                 Each decode / encode step is compared with the (stateless) model reply for its octets
+  stack       : a real client Application/ASAP/SMAP/NSAP on a vlan (virtual time, worker processes)
+                with device maxApduLengthAccepted over the six sizes and odd values,
+                maxSegmentsAccepted over the code points and in-between values, the four
+                segmentation modes, sending unsegmented and segmented confirmed requests to a real
+                peer that is unknown / known from a cached I-Am / whose cache record is edited
+                (larger and smaller limits); every confirmed-request header sniffed on the wire is
+                one case: its max-segments / max-response codes against the model's
+                encodeMaxSegs / encodeMaxApdu of the CLIENT's configured values
   oct-<n>     : ALL octet strings of length <= 2 (quick) / <= 3 (thorough) through dec and adec
   oct-random  : random longer strings, first octet biased to the eight types
   oct-trunc   : every strict prefix of valid frames, single-octet substitutions
@@ -48,6 +56,10 @@ Implementation-side oracle (independent of the model; only this produces failing
   * history: every result depends only on ITS octets / ITS object (reference decoder ref_decode,
     expected_layout); the pduData of two decoded objects are never the same bytearray; mutating
     one object never changes another
+  * stack: the codes (and SA) in every request header leaving the client are the floor code
+    points of the client's own configuration, whatever the device-info cache says
+  * history 'r' steps: a frame decoded into a typed object that was used before gives that
+    frame's header, payload and re-encoding (all ordered pairs of 15 frames + random)
   * apdu_types registers the eight classes under their own pduType; replies built with
     `context=request` carry the request's invoke ID / service choice
 Exception kinds: DecodingError -> decoding (core.exc_kind).  Encoder-side Python errors
@@ -66,7 +78,7 @@ LEVEL = "proof"
 RULE = ("full cross product per PDU type of flag bits x max-segments codes 0..7 x max-response codes "
         "0..15 x octet fields in {0,1,127,128,255} (thorough: 332 800 confirmed-request headers, 1 300 "
         "complex acks, 500 segment acks, ...; quick thins only the (inv,svc,seq,win) octets of segmented "
-        "confirmed requests to a strength-3 orthogonal array: 76 800 headers), each through "
+        "confirmed requests to a strength-2 orthogonal array: 25 600 headers), each through "
         "enc/aenc/dec/adec with a payload; loose headers; headers with every combination of stale flags "
         "of other PDU types, reused / APCI.update()d header objects; run-time application subclasses of the "
         "PDU classes, APDU and service classes (5 variants x 5 variants); in-process histories (decode, mutate "
@@ -706,9 +718,11 @@ def oracle_context_ctor(ctx):
 
 def headers_of_type(t, full=True):
     """the full cross product for one PDU type.  full=False (quick tier) thins ONLY the
-    four octet fields of segmented confirmed requests to a strength-3 orthogonal array
-    (every (inv, svc, seq) triple, window = Latin-square function of the three, so every
-    pair with the window occurs too); flags x code points stay a full product."""
+    four octet fields of segmented confirmed requests to a strength-2 orthogonal array
+    (every (inv, svc) pair; seq and win Latin-square functions of the two, so every pair of
+    the four fields occurs for every flags x codes combination); flags x code points stay a
+    full product.  (core.py runs the quick streams twice — once with the library's _debug
+    flags on — so the quick tier has to be light.)"""
     B = [False, True]
     O = OCTETS
     if t == 0:
@@ -719,9 +733,8 @@ def headers_of_type(t, full=True):
                         for sq, wn in itertools.product(O, O):
                             yield H(0, seg=seg, mor=mor, sa=sa, msegs=ms, mresp=mr, inv=inv, svc=svc, seq=sq, win=wn)
                     elif seg:
-                        for k, sq in enumerate(O):
-                            wn = O[(i + j + k + ms + mr) % 5]
-                            yield H(0, seg=seg, mor=mor, sa=sa, msegs=ms, mresp=mr, inv=inv, svc=svc, seq=sq, win=wn)
+                        sq, wn = O[(i + 2 * j) % 5], O[(i + j + ms + mr) % 5]
+                        yield H(0, seg=seg, mor=mor, sa=sa, msegs=ms, mresp=mr, inv=inv, svc=svc, seq=sq, win=wn)
                     else:
                         yield H(0, seg=seg, mor=mor, sa=sa, msegs=ms, mresp=mr, inv=inv, svc=svc)
     elif t == 1:
@@ -1131,6 +1144,230 @@ def shard_history(ctx, spec):
     run_history(ctx, "history", gen_history(rng, nseq, maxlen))
 
 
+# ---------------------------------------------------------------- through the stack (client side)
+
+_stack_cls = {}
+
+
+def _stack_classes():
+    """a real client / server stack: Application + ASAP + SMAP + NSAP on a vlan.Node, and a
+    promiscuous sniffer that keeps the APDU octets of every frame on the wire"""
+    if _stack_cls:
+        return _stack_cls
+    from bacpypes.comm import Client, bind
+    from bacpypes.pdu import Address
+    from bacpypes.vlan import Node
+    from bacpypes.npdu import NPDU
+    from bacpypes.app import Application
+    from bacpypes.appservice import StateMachineAccessPoint, ApplicationServiceAccessPoint
+    from bacpypes.netservice import NetworkServiceAccessPoint, NetworkServiceElement
+    from bacpypes.service.device import WhoIsIAmServices
+    from bacpypes.service.object import ReadWritePropertyServices
+
+    class Sniffer(Client):
+        def __init__(self, vlan):
+            Client.__init__(self)
+            self.node = Node(Address(99), vlan, promiscuous=True)
+            bind(self, self.node)
+            self.frames = []
+
+        def confirmation(self, pdu):
+            npdu = NPDU()
+            npdu.decode(pdu)
+            if npdu.npduNetMessage is None:
+                self.frames.append((str(pdu.pduSource), bytes(npdu.pduData)))
+
+    class App(Application, WhoIsIAmServices, ReadWritePropertyServices):
+        def __init__(self, device, addr, vlan):
+            Application.__init__(self, device, Address(addr))
+            self.asap = ApplicationServiceAccessPoint()
+            self.smap = StateMachineAccessPoint(device)
+            self.smap.deviceInfoCache = self.deviceInfoCache
+            self.nsap = NetworkServiceAccessPoint()
+            self.nse = NetworkServiceElement()
+            bind(self.nse, self.nsap)
+            bind(self, self.asap, self.smap, self.nsap)
+            self.node = Node(Address(addr), vlan)
+            self.nsap.bind(self.node)
+            self.answers = []
+
+        def confirmation(self, apdu):
+            self.answers.append(apdu)
+
+    _stack_cls.update(Sniffer=Sniffer, App=App)
+    return _stack_cls
+
+
+def exec_stack(scn):
+    """run one scenario on real stacks under virtual time; returns the confirmed-request
+    headers the CLIENT put on the wire: [{"step","seg","msegs","mresp","sa"}], and errors"""
+    from .vt import VT
+    vt = VT.install()
+    vt.reset()
+    from bacpypes.pdu import Address, LocalBroadcast
+    from bacpypes.vlan import Network
+    from bacpypes.apdu import IAmRequest, ReadPropertyRequest, WritePropertyRequest
+    from bacpypes.primitivedata import CharacterString
+    from bacpypes.constructeddata import Any
+    from bacpypes.local.device import LocalDeviceObject
+    K = _stack_classes()
+    c, p = scn["client"], scn["peer"]
+    vlan = Network(broadcast_address=LocalBroadcast())
+    sn = K["Sniffer"](vlan)
+    cdev = LocalDeviceObject(objectName="client", objectIdentifier=("device", 10), vendorIdentifier=999,
+                             maxApduLengthAccepted=c["apdu"], segmentationSupported=c["seg"],
+                             maxSegmentsAccepted=c["segs"] if c["segs"] is not None else 2)
+    if c["segs"] is None:
+        cdev.maxSegmentsAccepted = None
+    client = K["App"](cdev, 10, vlan)
+    server = K["App"](LocalDeviceObject(objectName="server", objectIdentifier=("device", 20), vendorIdentifier=999,
+                                        maxApduLengthAccepted=p["apdu"], segmentationSupported=p["seg"],
+                                        maxSegmentsAccepted=64), 20, vlan)
+    out, errors = [], []
+    for k, step in enumerate(scn["steps"]):
+        n0 = len(sn.frames)
+        try:
+            if step == "learn":
+                iam = IAmRequest(iAmDeviceIdentifier=("device", 20), maxAPDULengthAccepted=p["apdu"],
+                                 segmentationSupported=p["seg"], vendorID=999)
+                iam.pduSource = Address(20)
+                client.deviceInfoCache.iam_device_info(iam)
+            elif step.startswith("cache:"):
+                di = client.deviceInfoCache.get_device_info(Address(20))
+                if di is not None:
+                    key, val = step[6:].split("=")
+                    setattr(di, {"segs": "maxSegmentsAccepted", "npdu": "maxNpduLength",
+                                 "apdu": "maxApduLengthAccepted"}[key], int(val))
+                    client.deviceInfoCache.update_device_info(di)
+            elif step == "read":
+                req = ReadPropertyRequest(objectIdentifier=("device", 20), propertyIdentifier="objectName")
+                req.pduDestination = Address(20)
+                client.request(req)
+                vt.run()
+            elif step.startswith("big:"):
+                req = WritePropertyRequest(objectIdentifier=("device", 20), propertyIdentifier="description")
+                req.propertyValue = Any()
+                req.propertyValue.cast_in(CharacterString("x" * int(step[4:])))
+                req.pduDestination = Address(20)
+                client.request(req)
+                vt.run()
+        except Exception as e:
+            errors.append([k, type(e).__name__ + ": " + str(e)[:120]])
+        for src, octets in sn.frames[n0:]:
+            if src == "10" and octets and octets[0] >> 4 == 0:
+                ref = ref_decode(octets)
+                if ref is None:
+                    errors.append([k, "undecodable request header " + octets[:6].hex()])
+                    continue
+                h = ref[0]
+                out.append({"step": k, "seg": h["seg"], "msegs": h["msegs"], "mresp": h["mresp"], "sa": h["sa"],
+                            "head": octets[:4].hex()})
+    for name, msg in vt.errors:
+        errors.append([-1, "%s: %s" % (name, msg[:120])])
+    return out, errors
+
+
+def std_codes(c):
+    segs = c["segs"]
+    ms = 0 if not segs else 7 if segs > 64 else max(i for i in range(1, 7) if STD_SEGS[i] <= segs)
+    mr = max(i for i, v in enumerate(STD_LEN) if v <= c["apdu"])
+    return ms, mr
+
+
+def run_stack(ctx, stream, scenarios):
+    """oracle: every confirmed-request header leaving the client carries the floor code points of
+    the CLIENT's own configured max-segments / max-APDU (and SA = the client can receive segments),
+    whatever the device-info cache says about the peer, unsegmented and segmented alike"""
+    cases, a, wire = [], [], []
+    for scn in scenarios:
+        frames, errors = exec_stack(scn)
+        c = scn["client"]
+        ms, mr = std_codes(c)
+        sa = c["seg"] in ("segmentedReceive", "segmentedBoth")
+        for msg in errors:
+            ctx.fail("unexpected-exception", dict(scn, op="stack"), "step %s: %s" % (msg[0], msg[1]), op="stack")
+        reads = [k for k, st in enumerate(scn["steps"]) if st == "read"]
+        silent = [k for k in reads if not any(f["step"] == k for f in frames)]
+        if silent and not errors:
+            ctx.fail("stack-silent", dict(scn, op="stack"), "no confirmed request left the client in step(s) %r" % silent,
+                     op="stack")
+        bad = None
+        for i, f in enumerate(frames):
+            case = dict(scn, op="stack", frame=i)
+            cases.append(case)
+            a.append({"r": "ok", "msegs": f["msegs"], "mresp": f["mresp"]})
+            wire.append((c["segs"], c["apdu"]))
+            if bad is None and (f["msegs"], f["mresp"], f["sa"]) != (ms, mr, sa):
+                bad = (i, f)
+        if bad is not None:
+            i, f = bad
+            known = any(st == "learn" for st in scn["steps"][:f["step"] + 1])
+            ctx.fail("stack-header", dict(scn, op="stack", frame=i),
+                     "request %d (step %d '%s', %s, peer %s) left the client as %s: max-segments code %d, max-response "
+                     "code %d, SA %r; the client's own configuration (maxSegmentsAccepted %r, maxApduLengthAccepted %d, "
+                     "%s) rounds down to codes %d / %d, SA %r" % (
+                         i, f["step"], scn["steps"][f["step"]], "segmented" if f["seg"] else "unsegmented",
+                         "known from the cache (%r)" % (scn["peer"],) if known else "unknown", f["head"], f["msegs"],
+                         f["mresp"], f["sa"], c["segs"], c["apdu"], c["seg"], ms, mr, sa),
+                     op="stack", got_mresp=f["mresp"], want_mresp=mr, got_msegs=f["msegs"], want_msegs=ms)
+    if ctx.model_ok and cases:
+        uniq = sorted(set(wire), key=lambda x: (x[0] is None, x[0] or 0, x[1]))
+        reqs = []
+        for sg, ap in uniq:
+            reqs += [{"op": "segs-enc", "n": sg}, {"op": "len-enc", "n": ap}]
+        rep = core.Driver("drv_c07").ask(reqs)
+        table = {}
+        for j, key in enumerate(uniq):
+            r1, r2 = rep[2 * j], rep[2 * j + 1]
+            table[key] = {"r": "ok", "msegs": r1.get("c"), "mresp": r2.get("c")} if r1.get("r") == r2.get("r") == "ok" \
+                else {"r": "err", "k": r1.get("k") or r2.get("k")}
+        ctx.compare_stream(stream, cases, a, [table[w] for w in wire], sig=sig)
+    else:
+        for _c in cases:
+            ctx.count(stream)
+    if scenarios:
+        ctx.sample({"stream": stream, "case": dict(scenarios[0], op="stack")})
+
+
+APDU_SIZES = [50, 128, 206, 480, 1024, 1476, 51, 127, 300, 479, 1000, 1475, 2000]
+SEG_COUNTS = [None, 0, 2, 3, 4, 7, 8, 16, 31, 32, 64, 65, 100]
+SEG_MODES = ["segmentedBoth", "noSegmentation", "segmentedTransmit", "segmentedReceive"]
+PEER_SIZES = [1476, 50, 480, 1024, 128, 206]
+
+
+def gen_stack(ctx, rng):
+    scns = []
+
+    def add(ca, cs, cm, pa, variant):
+        big = "big:%d" % min(3200, 3 * min(ca, pa))
+        steps = {0: ["read", "learn", "read", big, "read"],
+                 1: ["learn", "read", big, "cache:segs=64", "read"],
+                 2: ["read", big, "learn", "cache:npdu=%d" % (pa + 21), "read", big],
+                 3: ["learn", "cache:apdu=1476", "read", "cache:apdu=50", "read"]}[variant % 4]
+        scns.append({"client": {"apdu": ca, "segs": cs, "seg": cm},
+                     "peer": {"apdu": pa, "seg": "segmentedBoth"}, "steps": steps})
+    n = 0
+    for ca in APDU_SIZES:
+        for pa in (PEER_SIZES if not ctx.quick else PEER_SIZES[:4]):
+            add(ca, SEG_COUNTS[n % len(SEG_COUNTS)], SEG_MODES[n % 4 if n % 3 else 0], pa, n)
+            n += 1
+    for cs in SEG_COUNTS:
+        for cm in SEG_MODES:
+            add(APDU_SIZES[n % len(APDU_SIZES)], cs, cm, PEER_SIZES[n % len(PEER_SIZES)], n)
+            n += 1
+    if not ctx.quick:
+        for _ in range(1500):
+            add(rng.choice(APDU_SIZES + [rng.randrange(50, 2001)]), rng.choice(SEG_COUNTS + [rng.randrange(2, 120)]),
+                rng.choice(SEG_MODES), rng.choice(PEER_SIZES + [rng.randrange(50, 1477)]), rng.randrange(4))
+    return scns
+
+
+def shard_stack(ctx, spec):
+    idx, n = spec
+    scns = gen_stack(ctx, ctx.sub_rng("c07-stack"))
+    run_stack(ctx, "stack", [s_ for i, s_ in enumerate(scns) if i % n == idx])
+
+
 def gen_oct_exhaustive(length, lo, hi):
     for v in range(lo, hi):
         hx = v.to_bytes(length, "big").hex() if length else ""
@@ -1207,6 +1444,9 @@ def sig(case, m):
         else:
             res = (st[2], m.get("r"))
         return ("history", st[0], res, min(past, 3))
+    if op == "stack":
+        st = case["steps"]
+        return ("stack", m.get("msegs"), m.get("mresp"), case["client"]["seg"], len(st), st[0])
     if op == "reuse":
         return (op, case["first"][:2], case["via"], case["h"]["t"], bool(case["h"]["seg"]),
                 "ok" if m.get("r") == "ok" else m.get("k"))
@@ -1287,7 +1527,8 @@ def run(ctx):
     # 0. corpus first
     corpus = load_corpus()
     if corpus:
-        run_cases(ctx, "corpus", [c for c in corpus if c["op"] != "history"])
+        run_cases(ctx, "corpus", [c for c in corpus if c["op"] not in ("history", "stack")])
+        run_stack(ctx, "corpus", [{k: c[k] for k in ("client", "peer", "steps")} for c in corpus if c["op"] == "stack"])
         run_history(ctx, "corpus", [c["steps"] for c in corpus if c["op"] == "history"], stop=False)
     oracle_registry(ctx)
     oracle_context_ctor(ctx)
@@ -1295,6 +1536,9 @@ def run(ctx):
     #     one after the other in the same interpreter)
     nh, per, ml = (8, 40, 24) if ctx.quick else (16, 1500, 40)
     core.run_shards(ctx, "harness.c07", "shard_history", [("pairs", 0, 0)] + [(i, per, ml) for i in range(nh)])
+    # 0c. the codes as they leave a real client stack (worker processes, virtual time)
+    ns = 4 if ctx.quick else 16
+    core.run_shards(ctx, "harness.c07", "shard_stack", [(i, ns) for i in range(ns)])
     # 1. tables
     tc = gen_tables(ctx)
     ta = run_cases(ctx, "tables", tc)
@@ -1324,7 +1568,7 @@ def run(ctx):
     ctx.extra["header_cross_product"] = (
         "full (flags x codes x {0,1,127,128,255}) for all eight types" if not ctx.quick else
         "full flags x codes for all eight types; octet fields {0,1,127,128,255} full except segmented "
-        "confirmed requests: strength-3 orthogonal array over (inv, svc, seq, win) (thorough: full)")
+        "confirmed requests: strength-2 orthogonal array over (inv, svc, seq, win) (thorough: full)")
     ctx.extra["capability_sweep"] = "None, 0..2000, large"
 
 
@@ -1387,6 +1631,9 @@ def replay(ctx, payload):
         return
     if case.get("op") == "history":
         run_history(ctx, "replay", [case["steps"]])
+        return
+    if case.get("op") == "stack":
+        run_stack(ctx, "replay", [{k: case[k] for k in ("client", "peer", "steps")}])
         return
     a = run_cases(ctx, "replay", [case])
     if case["op"] in ("len-enc", "segs-enc"):
